@@ -6,6 +6,8 @@
 package c19
 
 import (
+	"os"
+	"regexp"
 	"bytes"
 	"context"
 	"errors"
@@ -62,6 +64,9 @@ func run(s *kernel.Sim, c *scen.Case) {
 		methods = []security.AuthMethod{security.AuthClaimToBe}
 	case "token":
 		methods = []security.AuthMethod{security.AuthToken}
+	case "fs":
+		// filesystem authentication between two real endpoints, on the real /tmp
+		methods = []security.AuthMethod{security.AuthFS}
 	}
 	cache := security.NewSessionCache()
 	mkc := func() *security.SecurityConfig {
@@ -207,6 +212,15 @@ func run(s *kernel.Sim, c *scen.Case) {
 			return
 		}
 		pr := startPair(1, p.Role == "client")
+		if p.Shape == "fs" {
+			// whatever directory the exchange names is removed when the case ends (a stalled
+			// exchange abandons it); the path travels in clear from server to client
+			defer func() {
+				if m := fsPathRE.Find(pr.SE.SentBytes()); m != nil {
+					_ = os.Remove(string(m))
+				}
+			}()
+		}
 		if p.Role == "client" {
 			s.Go("under-test", func() {
 				_, err := security.NewAuthenticator(mkc(), pr.CS).ClientHandshake(ctx)
@@ -396,7 +410,10 @@ func run(s *kernel.Sim, c *scen.Case) {
 	_ = stallAt
 }
 
+var fsPathRE = regexp.MustCompile(`/tmp/FS_[A-Za-z0-9_.]{1,80}`)
+
 var combos = []struct{ shape, role string }{
+	{"fs", "client"}, {"fs", "server"},
 	{"plain", "sender"}, {"plain", "receiver"},
 	{"noauth", "client"}, {"noauth", "server"},
 	{"claimtobe", "client"}, {"claimtobe", "server"},
